@@ -298,9 +298,8 @@ func makeField(v reflect.Value, params fieldParameters) (encoder, error) {
 					if err != nil {
 						return nil, fmt.Errorf("iterate subtype error")
 					}
-
-					berType.value = structEncoder(s)
 				}
+				berType.value = structEncoder(s)
 			}
 		case reflect.Slice:
 			tag.class = ClassUniversal
